@@ -56,7 +56,10 @@ RULE = ("random histories plus, every run: MAGNITUDE histories (every documented
         "bare bit string, with and without the redundant width, SBV, BVZero/BVOne, shortcuts, infix - at widths 1..4096 and values near 2^w, "
         "Int/Real/String constants and symbol names as equal-but-not-identical run-time objects: one object, same accessors, no refusal) and "
         "LIFETIME histories (1-2 long-lived destination environments, 30-60 short-lived garbage-collected source environments with their own "
-        "non-singleton sorts: each copy equals its source, is the node a native build denotes, has target sorts, shares nothing); "
+        "non-singleton sorts: each copy equals its source, is the node a native build denotes, has target sorts, shares nothing) and "
+        "CONTAINER histories (every Iterable-taking entry point with the same argument list as varargs, list, tuple, set, frozenset, dict, "
+        "keys view, deque, generator, map, filter, iter, chain, reversed - empty, singleton, duplicates: one object or one exception class; "
+        "replayed in the model as the list form; results copied into a second environment); "
         "history = list of constructor calls on 1-3 fresh Environments (about 45 calls each); compared: every returned "
         "node_id / error and the complete final formulae table of every environment, model vs implementation; oracle: "
         "skey injectivity over ALL nodes of every table, blueprint read-backs, same request => same outcome, copies; "
@@ -1189,7 +1192,7 @@ class History(object):
         return "(%s, %d, %s,\n   [%s],\n   [%s],\n   %s)" % ("true" if self.raw else "false", len(self.envs), self.addrs(), reqs, reps, self.tables())
 
     def script(self, upto=None):
-        hdr = ["import gc", "from fractions import Fraction", "import pysmt.shortcuts, pysmt.environment", "from pysmt.environment import Environment",
+        hdr = ["import gc, itertools, collections, types", "from fractions import Fraction", "import pysmt.shortcuts, pysmt.environment", "from pysmt.environment import Environment",
                "from pysmt.typing import *"]
         hdr += ["m%d = Environment().formula_manager" % E.k for E in self.envs if E.k not in self.lazy]
         body = self.py if upto is None else self.py[:upto + 1]
@@ -1240,6 +1243,9 @@ Definition diag (c : case) : nat :=
 """
 
 
+EMPTY_CASE = "(true, 0, [], [], [], [])"
+
+
 def write_cases(chk, hists, shard=6, weight=450):
     """consecutive histories per file: at most `shard` of them and about `weight` calls"""
     files, k = [], 0
@@ -1248,7 +1254,7 @@ def write_cases(chk, hists, shard=6, weight=450):
         while j < len(hists) and j - k < shard and (j == k or wsum + len(hists[j].reqs) <= weight):
             wsum += len(hists[j].reqs)
             j += 1
-        text = CASE_HDR + "Definition cases : list case := [\n%s\n].\n" % ";\n".join(h.coq_case() for h in hists[k:j])
+        text = CASE_HDR + "Definition cases : list case := [\n%s\n].\n" % ";\n".join((h.coq_case() if h.model else EMPTY_CASE) for h in hists[k:j])
         text += "Eval vm_compute in mismatches ok cases.\n"
         p = os.path.join(chk.dir, "cases_hist_%d.v" % len(files))
         with open(p, "w") as f:
@@ -1510,6 +1516,145 @@ def lifetime_history(seed, k, nworkers, ndst):
     return h
 
 
+def container_forms(L, pool):
+    """the same requested argument list L handed over through every container protocol:
+    (form name, python text of the argument, the object (None = varargs), the sequence it denotes)"""
+    import collections
+    import itertools
+    L = list(L)
+    txt = "[%s]" % ", ".join("n0_%d" % x.node_id() for x in L)
+    out = [("varargs", "*" + txt, None, L),
+           ("list", txt, list(L), L),
+           ("tuple", "tuple(%s)" % txt, tuple(L), L),
+           ("genexp", "(x for x in %s)" % txt, (x for x in list(L)), L),
+           ("map", "map(lambda x: x, %s)" % txt, map(lambda x: x, list(L)), L),
+           ("filter", "filter(lambda x: True, %s)" % txt, filter(lambda x: True, list(L)), L),
+           ("iter", "iter(%s)" % txt, iter(list(L)), L),
+           ("chain", "itertools.chain(%s[:1], %s[1:])" % (txt, txt), itertools.chain(L[:1], L[1:]), L),
+           ("deque", "collections.deque(%s)" % txt, collections.deque(L), L),
+           ("reversed", "reversed(%s[::-1])" % txt, reversed(L[::-1]), L)]
+    st = set(L)
+    out.append(("set", "set(%s)" % txt, st, list(st)))
+    fs = frozenset(L)
+    out.append(("frozenset", "frozenset(%s)" % txt, fs, list(fs)))
+    d = dict.fromkeys(L)
+    out.append(("dict", "dict.fromkeys(%s)" % txt, d, list(d)))
+    out.append(("dict_keys", "dict.fromkeys(%s).keys()" % txt, d.keys(), list(d)))
+    if not L:
+        ptxt = "[%s]" % ", ".join("n0_%d" % x.node_id() for x in pool)
+        out.append(("filter_none", "filter(lambda x: False, %s)" % ptxt, filter(lambda x: False, list(pool)), []))
+        out.append(("genexp_none", "(x for x in %s if x is None)" % ptxt, (x for x in list(pool) if x is None), []))
+        out.append(("map_none", "map(lambda x: x, [])", map(lambda x: x, []), []))
+    return out
+
+
+def container_histories():
+    """argument container protocol: every entry point whose parameter is an Iterable gets the same requested structure as
+    varargs, list, tuple, set, frozenset, dict, keys view, deque, generator expression, map, filter, iter, chain, reversed -
+    empty, singleton, with duplicates: identical object (or identical exception), one-shot iterables consumed once.
+    The model replays every call as the list form.  Each result is then copied into a second environment."""
+    import collections
+    import types
+    import pysmt.shortcuts as sc
+    hs = []
+    for modelled in (True, False):
+        h = History(random.Random(11), 2)
+        h.strict_err = True
+        h.model = modelled
+        E, D = h.envs
+        m = E.m
+
+        def sym(nm, d):
+            return h.do(E, "Symbol", "RSymbol %s %s" % (tocoq.cstr(nm), cty(d)), "m0.Symbol(%r, ...)" % nm, lambda: m.Symbol(nm, mkty(E.env, d)), must=True)
+        bs = [sym(x, B) for x in "abc"]
+        is_ = [sym(x, I) for x in "ijk"]
+        rs = [sym(x, R) for x in ("r1", "r2", "r3")]
+        vs = [sym(x, BVt(8)) for x in ("p", "q", "w8")]
+        ss = [sym(x, S) for x in ("s1", "s2", "s3")]
+        fn = sym("fn", ("Fun", (I, I), I))
+        body = h.do(E, "LE", "RCtor (CNode OLe) [%d; %d] []" % (is_[0].node_id(), is_[1].node_id()), "m0.LE(i, j)", lambda: m.LE(is_[0], is_[1]), must=True)
+        qbody = h.do(E, "And", "RCtor CAnd [%d; %d] []" % (bs[0].node_id(), body.node_id()), "m0.And(a, i <= j)", lambda: m.And(bs[0], body), must=True)
+
+        def shapes(xs):
+            x, y, z = xs
+            return [[], [x], [x, y], [x, y, x], [y, x], [x, y, z], [x, x]]
+
+        def call(kind, fun, funtxt, coqf, L, pool, varargs=True, wrap=None, wraptxt="%s", shortcut=False):
+            """all container forms of the argument list L for one entry point; coqf(ids) -> Coq request (the list form);
+            wrap(container) -> argument tuple when the iterable is not the only parameter"""
+            for form, atxt, obj, seq in container_forms(L, pool):
+                if form == "varargs":
+                    if not varargs:
+                        continue
+                    th = (lambda seq=seq: fun(*seq))
+                elif wrap is not None:
+                    th = (lambda obj=obj: fun(*wrap(obj)))
+                else:
+                    th = (lambda obj=obj: fun(obj))
+                if shortcut:
+                    th = in_env(E, th)
+                ids = [x.node_id() for x in seq]
+                h.do(E, kind, coqf(ids), "%s(%s)" % (funtxt, wraptxt % atxt), th, reqkey=(kind, tuple(ids)), denot=(kind, tuple(ids)))
+
+        if modelled:
+            nary = [("And", "CAnd", bs), ("Or", "COr", bs), ("Plus", "CPlus", is_), ("Times", "CTimes", rs), ("BVAnd", "(CBvNary BAnd)", vs),
+                    ("BVOr", "(CBvNary BOr)", vs), ("BVAdd", "(CBvNary BAdd)", vs), ("BVMul", "(CBvNary BMul)", vs), ("BVConcat", "CBvConcat", vs),
+                    ("StrConcat", "CStrConcat", ss)]
+            for meth, cq, xs in nary:
+                for L in shapes(xs):
+                    call(meth, getattr(m, meth), "m0." + meth, lambda ids, cq=cq: "RCtor %s %s []" % (cq, cids(ids)), L, xs)
+            for meth, cq, xs in (("And", "CAnd", bs), ("Or", "COr", bs), ("Plus", "CPlus", is_), ("Times", "CTimes", rs)):
+                for L in shapes(xs)[:4]:
+                    call(meth, getattr(sc, meth), "pysmt.shortcuts." + meth, lambda ids, cq=cq: "RCtor %s %s []" % (cq, cids(ids)), L, xs, shortcut=True)
+            for meth, univ in (("ForAll", "true"), ("Exists", "false")):
+                for L in shapes(is_) + [[bs[1]], [bs[1], is_[2]]]:
+                    coqf = (lambda ids, univ=univ: "RCtor (CQuant %s) %s []" % (univ, cids([qbody.node_id()] + ids)))
+                    call(meth, getattr(m, meth), "m0." + meth, coqf, L, is_ + bs, varargs=False, wrap=lambda o: (o, qbody), wraptxt="%%s, n0_%d" % qbody.node_id())
+                for L in shapes(is_)[:3]:
+                    coqf = (lambda ids, univ=univ: "RCtor (CQuant %s) %s []" % (univ, cids([qbody.node_id()] + ids)))
+                    call(meth, getattr(sc, meth), "pysmt.shortcuts." + meth, coqf, L, is_ + bs, varargs=False, wrap=lambda o: (o, qbody),
+                         wraptxt="%%s, n0_%d" % qbody.node_id(), shortcut=True)
+            # Function(vname, params: Sequence): the sized containers
+            for L in ([], [is_[0], is_[1]], [is_[0], is_[0]], [is_[1]], [is_[0], is_[1], is_[2]]):
+                ids = [x.node_id() for x in L]
+                for form, mk in (("list", list), ("tuple", tuple), ("deque", collections.deque)):
+                    h.do(E, "Function", "RCtor CFunction %s []" % cids([fn.node_id()] + ids), "m0.Function(n0_%d, %s(%s))" % (fn.node_id(), form, ids),
+                         lambda mk=mk, L=L: m.Function(fn, mk(L)), reqkey=("Function", tuple(ids)), denot=("Function", tuple(ids)))
+            # Array(idx, default, assigned_values: Dict): mapping protocols, insertion orders, the empty map
+            ks = [h.do(E, "Int", "RInt (PyInt %d%%Z)" % v, "m0.Int(%d)" % v, lambda v=v: m.Int(v), must=True) for v in (1, 2, 3)]
+            dflt = ks[2]
+            import pysmt.typing as T
+            for pairs in ([], [(ks[0], ks[1])], [(ks[0], ks[1]), (ks[1], ks[0])], [(ks[0], ks[1]), (ks[1], dflt)], [(ks[0], dflt)]):
+                eff = tuple(sorted((a.node_id(), b.node_id()) for a, b in pairs if b is not dflt))
+                forms = [("dict", lambda pr: dict(pr), pairs), ("dict_reversed", lambda pr: dict(pr), pairs[::-1]),
+                         ("OrderedDict", lambda pr: collections.OrderedDict(pr), pairs), ("MappingProxyType", lambda pr: types.MappingProxyType(dict(pr)), pairs)]
+                if not pairs:
+                    forms += [("None", lambda pr: None, pairs), ("omitted", None, pairs)]
+                for form, mk, pr in forms:
+                    coq = "RArray TInt %d [%s]" % (dflt.node_id(), "; ".join("(%d, %d)" % (a.node_id(), b.node_id()) for a, b in pr))
+                    th = (lambda: m.Array(T.INT, dflt)) if mk is None else (lambda mk=mk, pr=pr: m.Array(T.INT, dflt, mk(pr)))
+                    h.do(E, "Array", coq, "m0.Array(INT, n0_%d, <%s of %s>)" % (dflt.node_id(), form, [(a.node_id(), b.node_id()) for a, b in pr]), th,
+                         reqkey=("Array", eff), denot=("Array", eff))
+        else:
+            # entry points outside the Coq model: oracle only (one object per requested structure, identical exceptions)
+            for meth, xs in (("AtMostOne", bs), ("ExactlyOne", bs), ("AllDifferent", is_), ("AllDifferent", bs), ("Min", is_), ("Max", rs)):
+                for L in shapes(xs):
+                    call(meth + ":" + str(xs is bs), getattr(m, meth), "m0." + meth, lambda ids: "RBool (PyBool true)", L, xs)
+                for L in shapes(xs)[:4]:
+                    call(meth + ":" + str(xs is bs), getattr(sc, meth), "pysmt.shortcuts." + meth, lambda ids: "RBool (PyBool true)", L, xs, shortcut=True)
+            for sign in (False, True):
+                for meth in ("MinBV", "MaxBV"):
+                    for L in shapes(vs):
+                        call("%s:%s" % (meth, sign), getattr(m, meth), "m0." + meth, lambda ids: "RBool (PyBool true)", L, vs,
+                             wrap=lambda o, sign=sign: (sign, o), wraptxt="%s, %%s" % sign, varargs=False)
+        # every result is copied into the second environment
+        for key in list(E.denot):
+            h.g_normalize(D, E, E.denot[key][0])
+        h.finish()
+        hs.append(h)
+    return hs
+
+
 DIRECTED = "directed"
 
 
@@ -1605,6 +1750,10 @@ def run(tier, only=None):
             tags.append("magnitude:%d" % j)
         hists.append(scalar_magnitude_history())
         tags.append("magnitude:scalars")
+        # argument container protocol
+        for j, h in enumerate(container_histories()):
+            hists.append(h)
+            tags.append("containers:%s" % ("modelled" if h.model else "oracle-only"))
         # lifetime: long-lived destination(s), many short-lived garbage-collected sources
         plan = [(40, 1), (40, 2), (30, 1)] if tier == "quick" else [(60, 1), (60, 2), (45, 1), (45, 2), (30, 1), (30, 2), (60, 1), (50, 2), (40, 1), (40, 2)]
         for j, (nw, nd) in enumerate(plan):
